@@ -154,6 +154,9 @@ func doOne() int {
 		fmt.Println(l)
 	}
 	fmt.Printf("fails=%v other=%q quiet=%q steps=%d loghash=%s\n", res.Fails, res.OtherRule, res.Quiet, res.NSteps, res.LogHash)
+	for _, f := range res.OtherFails {
+		fmt.Printf("  other: %s: %s\n", f.Rule, f.Msg)
+	}
 	return 0
 }
 
